@@ -183,6 +183,10 @@ def func(a, b=1):
 lam = lambda x: x  # noqa: E731
 
 
+def zero():
+    return 0
+
+
 def genfunc():
     yield 1
     yield "a"
